@@ -75,7 +75,7 @@ func GenRefGraph(t *rapid.T, label string) *GraphCase {
 			continue
 		}
 		o := &ref.SNode{Kind: ref.SObj}
-		cnt := rapid.IntRange(1, 3).Draw(t, fmt.Sprint(label, "Props", i))
+		cnt := rapid.IntRange(0, 3).Draw(t, fmt.Sprint(label, "Props", i))
 		for k := 0; k < cnt; k++ {
 			key := fmt.Sprintf("p%d", k)
 			v := refNode(fmt.Sprint(label, "T", i, "P", k))
@@ -84,7 +84,7 @@ func GenRefGraph(t *rapid.T, label string) *GraphCase {
 			}
 			o.Props = append(o.Props, ref.SProp{Key: key, KeyTok: Quote(key), Val: v})
 		}
-		if len(objects) > 1 && rapid.IntRange(0, 5).Draw(t, fmt.Sprint(label, "AllOf", i)) == 0 {
+		if len(objects) > 1 && rapid.IntRange(0, 3).Draw(t, fmt.Sprint(label, "AllOf", i)) == 0 {
 			p := rapid.SampledFrom(objects).Draw(t, fmt.Sprint(label, "AllOfP", i))
 			// different key namespace per type avoids duplicate-key conflicts: rename own keys
 			for k := range o.Props {
